@@ -189,7 +189,11 @@ func TestConcurrentPresentations(t *testing.T) {
 				m := message.NewMessage(uuid, body)
 				who[m] = g
 				if hs.Kind == "meta" {
-					m.Metadata.Set("dedup-key", rprefix+fmt.Sprint(rapid.IntRange(0, 2).Draw(t, "metaKey")))
+					if mk := rapid.IntRange(0, 3).Draw(t, "metaKey"); mk == 3 {
+						m.Metadata["dedup-key"] = "" // present and empty: the key is the empty string, a key like any other
+					} else {
+						m.Metadata["dedup-key"] = rprefix + fmt.Sprint(mk)
+					}
 				}
 				msgs[g] = m
 				k := hs.refKey(m)
